@@ -1271,7 +1271,8 @@ def run_inner(ctx, scale=1.0, only_oracle=False):
                 if not same:
                     disagree('incon_transfer', f_inc, case_of(kind, s, t, {'explicit': explicit, 'model': 'heap'}),
                              (mo[0], flags) if mo[0] == 'ok' else mo, (r[0], real_flags) if r[0] == 'ok' else r)
-            ask(['inch'] + qt + gs + gt + incon_tokens(sinc) + dict_tokens(mp) + dict_tokens(cmp_), c_inch)
+            if t.num_blocks <= 4000:      # the heap model appends to a list per block: quadratic, keep it to moderate sizes
+                ask(['inch'] + qt + gs + gt + incon_tokens(sinc) + dict_tokens(mp) + dict_tokens(cmp_), c_inch)
         # --- model: hypotheses of generator_transfer_identity on the identical-geometry transfers
         for dat, top, bot in ident_jobs:
             try:
